@@ -279,7 +279,10 @@ fn eval_file<const N: usize>(ctx: &Ctx, sh: &mut Shard, rng: &mut Rng, cfg: &Cfg
             return Err((Fail("migrate_blob/v1-v1-differs".into(), "records differ after v1->v1 migration".into()), base_replay(json!("migrate v1->v1"))));
         }
         std::fs::write(&inp, to_v0(orig, bp)).unwrap();
-        let _ = std::fs::remove_file(&outp);
+        // output path reused: it still holds the previous (v1->v1) output plus junk
+        let mut old = std::fs::read(&outp).unwrap_or_default();
+        old.extend_from_slice(&[0xEE; 61]);
+        let _ = std::fs::write(&outp, &old);
         tools::migrate_blob(&inp, &outp, 0, 1).map_err(|e| (Fail("migrate_blob/v0-v1-failed".into(), format!("{:#}", e)), base_replay(json!("migrate v0->v1"))))?;
         let o = parse::parse_blob_file(&outp).unwrap();
         if !o.complete_and_sound() || o.records.len() != bp.records.len() || !o.records.iter().zip(bp.records.iter()).all(|(a, b)| same_record(a, b)) || o.version != 1 {
@@ -392,7 +395,16 @@ fn eval_file<const N: usize>(ctx: &Ctx, sh: &mut Shard, rng: &mut Rng, cfg: &Cfg
         };
         for (mode, skip, every) in [("recovery_blob", false, 0usize), ("recovery_blob+skip", true, 1), ("recovery_blob+skip", true, 3), ("move_and_recover_blob", true, 2)] {
             let outp = scratch.join("d.out.blob");
-            let _ = std::fs::remove_file(&outp);
+            // the output path may already hold an older (longer) file, e.g. a reused scratch path:
+            // half of the runs start with the complete original blob + junk there
+            if every % 2 == 1 {
+                let mut old = orig.to_vec();
+                old.extend_from_slice(&[0xEE; 97]);
+                let _ = std::fs::write(&outp, &old);
+                sh.add("recoveries_into_existing_output_file", 1);
+            } else {
+                let _ = std::fs::remove_file(&outp);
+            }
             let res = if mode == "move_and_recover_blob" {
                 let work = scratch.join("d.work.blob");
                 let backup = scratch.join("d.backup.blob");
